@@ -8,6 +8,7 @@ package main
 // The strict array's count field is not part of the text: nothing reads it since the repair of F6.
 
 import (
+	"reflect"
 	"encoding/binary"
 	"encoding/hex"
 	"fmt"
@@ -425,6 +426,10 @@ func libDecodeOnce(bs []byte) (a amf0.Amf0, class string) {
 // next message.
 var amfInputAliased []string
 
+// amfReusable: one long-lived value per Go type, decoded into again and again; amfReuseBad: where that differed
+var amfReusable = map[reflect.Type]amf0.Amf0{}
+var amfReuseBad [][3]string
+
 func libDecode(bs []byte) amfDec {
 	// decode from a private buffer, note the value, scribble over the buffer, look at the value again
 	buf := append([]byte(nil), bs...)
@@ -438,6 +443,31 @@ func libDecode(bs []byte) amfDec {
 	}
 	if after := amfStr(a); after != before && len(amfInputAliased) < 3 {
 		amfInputAliased = append(amfInputAliased, fmt.Sprintf("decoded from %s: %s — after the input buffer was overwritten: %s", h.Trunc(h.Hex(bs), 120), h.Trunc(before, 160), h.Trunc(after, 160)))
+	}
+	// a REUSED value: decoding these bytes into the value that an earlier decode (of other bytes) filled gives the same
+	// tree and the same Size() as decoding them into a fresh one — F29
+	if t := reflect.TypeOf(a); true {
+		if prev, ok := amfReusable[t]; ok {
+			cl := h.Safe(func() string {
+				if err := prev.UnmarshalBinary(append([]byte(nil), bs...)); err != nil {
+					return "err"
+				}
+				return "ok"
+			})
+			if (cl != "ok" || amfStr(prev) != before || prev.Size() != a.Size()) && len(amfReuseBad) < 3 {
+				got := cl
+				if cl == "ok" {
+					got = fmt.Sprintf("%s size %d", h.Trunc(amfStr(prev), 200), prev.Size())
+				}
+				amfReuseBad = append(amfReuseBad, [3]string{fmt.Sprintf("%s decoded into a value of the same type that an earlier decode had filled", h.Trunc(h.Hex(bs), 200)), got, fmt.Sprintf("%s size %d", h.Trunc(before, 200), a.Size())})
+			}
+			if cl != "ok" {
+				delete(amfReusable, t)
+			}
+		} else {
+			amfReusable[t] = a
+			a, _ = libDecodeOnce(append([]byte(nil), bs...)) // the caller gets a value of its own
+		}
 	}
 	lo, hi := 0, len(bs) // invariant: prefix lo fails (0 always fails), prefix hi succeeds
 	for hi-lo > 1 {
@@ -505,6 +535,11 @@ func amfCheckRetained(c *h.Ctx) {
 		c.Hold(false, "decode.value_not_aliased_to_input", m, "changed", "unchanged")
 	}
 	amfInputAliased = nil
+	for _, m := range amfReuseBad {
+		c.Hold(false, "decode.reused_value_equals_fresh", m[0], m[1], m[2])
+	}
+	amfReuseBad = nil
+	amfReusable = map[reflect.Type]amf0.Amf0{}
 	c.Note(fmt.Sprintf("retained marshalled slices re-checked: %d", len(amfRing)))
 	amfRing, amfRingBytes = nil, 0
 }
